@@ -669,4 +669,181 @@ theorem cart3_divergence_integral_zero_ghost (mth : Method) (dx dy dz : K) (hdx 
 
 end ghosts
 
+section grids
+variable {K : Type} [Field K] [LinearOrder K] [IsStrictOrderedRing K]
+
+/-! ## radially symmetric grids: the cell centres `centre r_min dr` satisfy the lattice hypotheses -/
+
+theorem centre_lattice (rmin dr : K) (i : Int) : centre rmin dr (i + 1) = centre rmin dr i + dr := by
+  unfold centre; push_cast; ring
+
+/-- the lower face of the first cell is the inner radius -/
+theorem centre_inner_face (rmin dr : K) : centre rmin dr 0 + dr / 2 = rmin := by
+  unfold centre; push_cast; ring
+
+theorem centre_pos (rmin dr : K) (h0 : 0 ≤ rmin) (hdr : 0 < dr) (i : Nat) (hi : 1 ≤ i) :
+    0 < centre rmin dr (i:Int) := by
+  unfold centre
+  push_cast
+  have h1 : (1:K) ≤ (i:K) := by exact_mod_cast hi
+  have : 0 < ((i:K) - 1 / 2) * dr := mul_pos (by linarith) hdr
+  linarith
+
+theorem centre_ne_zero (rmin dr : K) (h0 : 0 ≤ rmin) (hdr : 0 < dr) (i : Nat) (hi : 1 ≤ i) :
+    centre rmin dr (i:Int) ≠ 0 := (centre_pos rmin dr h0 hdr i hi).ne'
+
+theorem centre_shell_ne (rmin dr : K) (hdr : dr ≠ 0) (i : Nat) : dr ^ 2 + 12 * (centre rmin dr (i:Int)) ^ 2 ≠ 0 := by
+  have : 0 < dr ^ 2 := by positivity
+  have : 0 ≤ 12 * (centre rmin dr (i:Int)) ^ 2 := by positivity
+  exact (by linarith : 0 < dr ^ 2 + 12 * (centre rmin dr (i:Int)) ^ 2).ne'
+
+/-- faces of a radially symmetric grid (`r`, then `z` for the cylinder): conserving conditions everywhere,
+except that the inner face (`r` lower) carries an arbitrary condition `cin` (normal-only flag `nin`) -/
+def radialFaces (shape : List Nat) (vector : Bool) (dxs : List K) (pers : List Bool) (cin : Cond K) (nin : Bool) :
+    List (Face × K × Cond K) :=
+  gridFaces shape (if vector then 1 else 0) (fun ax => dxs.getD ax 1)
+    (fun ax => consCond vector (pers.getD ax false))
+    (fun ax => if ax = 0 then cin else consCond vector (pers.getD ax false))
+    (fun ax => vector && !pers.getD ax false)
+    (fun ax => if ax = 0 then nin else vector && !pers.getD ax false)
+
+theorem radialFaces_compatible (shape : List Nat) (vector : Bool) (dxs : List K) (pers : List Bool) (cin : Cond K)
+    (nin : Bool) (hshape : ∀ ax, ax < shape.length → 1 ≤ shape.getD ax 0)
+    (hcurv : ∀ k, cin = .curvature k → 2 ≤ shape.getD 0 0) :
+    Compatible (radialFaces shape vector dxs pers cin nin) := by
+  apply gridFaces_compatible _ _ _ _ _ _ _ hshape
+  intro ax _ k h
+  rcases h with h | h
+  · exact absurd h (consCond_not_curvature _ _ _)
+  · by_cases h0 : ax = 0
+    · subst h0; exact hcurv k (by simpa using h)
+    · simp only [h0, if_false] at h; exact absurd h (consCond_not_curvature _ _ _)
+
+/-- what is required of the inner face: nothing on a full disk/ball/cylinder (`r_min = 0`), the conserving
+condition if there is a hole -/
+def InnerOK (vector : Bool) (rmin : K) (cin : Cond K) (nin : Bool) : Prop :=
+  rmin = 0 ∨ (cin = consCond vector false ∧ nin = vector)
+
+/-- polar grid, Laplacian: outer face zero-flux; inner face zero-flux, or anything if `r_min = 0` -/
+theorem polar_laplace_integral_zero_grid (rmin dr : K) (h0 : 0 ≤ rmin) (hdr : 0 < dr) (a : Arr K) (n : Nat) (hn : 1 ≤ n)
+    (cin : Cond K) (nin : Bool) (hin : InnerOK false rmin cin nin) (hcurv : ∀ k, cin = .curvature k → 2 ≤ n) :
+    intPolarLaplace (centre rmin dr) dr (setGhostAll (radialFaces [n] false [dr] [false] cin nin) a) n = 0 := by
+  have hc := radialFaces_compatible [n] false [dr] [false] cin nin (shape1_ok n hn) (by simpa using hcurv)
+  have hon : OnLine [n] 0 0 false [0] := by online
+  have mu : ((⟨[n], 0, 0, .upper, false⟩ : Face), dr, Cond.neumann (fun _ => (0:K)))
+      ∈ radialFaces [n] false [dr] [false] cin nin := (mem_gridFaces ..).mpr ⟨0, by simp, Or.inl rfl⟩
+  have hout := line_neumann0 _ hc a _ _ mu [0] hon
+  apply polar_laplace_integral_zero (centre rmin dr) dr _ n hdr.ne' (centre_lattice rmin dr)
+    (fun i hi => centre_ne_zero rmin dr h0 hdr i hi)
+  · rw [centre_inner_face]
+    rcases hin with h | ⟨h1, h2⟩
+    · exact Or.inl h
+    · right
+      subst h1; subst h2
+      have ml : ((⟨[n], 0, 0, .lower, false⟩ : Face), dr, Cond.neumann (fun _ => (0:K)))
+          ∈ radialFaces [n] false [dr] [false] (consCond false false) false := (mem_gridFaces ..).mpr ⟨0, by simp, Or.inr rfl⟩
+      rw [neumann0_ghost]
+      exact line_neumann0 _ hc a _ _ ml [0] hon
+  · rw [neumann0_ghost]
+    exact hout
+
+/-- spherical grid, conservative Laplacian -/
+theorem sph_laplace_conservative_integral_zero_grid (rmin dr : K) (hdr : 0 < dr) (a : Arr K) (n : Nat) (hn : 1 ≤ n)
+    (cin : Cond K) (nin : Bool) (hin : InnerOK false rmin cin nin) (hcurv : ∀ k, cin = .curvature k → 2 ≤ n) :
+    intSphLaplace true (centre rmin dr) dr (setGhostAll (radialFaces [n] false [dr] [false] cin nin) a) n = 0 := by
+  have hc := radialFaces_compatible [n] false [dr] [false] cin nin (shape1_ok n hn) (by simpa using hcurv)
+  have hon : OnLine [n] 0 0 false [0] := by online
+  have mu : ((⟨[n], 0, 0, .upper, false⟩ : Face), dr, Cond.neumann (fun _ => (0:K)))
+      ∈ radialFaces [n] false [dr] [false] cin nin := (mem_gridFaces ..).mpr ⟨0, by simp, Or.inl rfl⟩
+  have hout := line_neumann0 _ hc a _ _ mu [0] hon
+  apply sph_laplace_conservative_integral_zero (centre rmin dr) dr _ n hdr.ne' (centre_lattice rmin dr)
+    (fun i => centre_shell_ne rmin dr hdr.ne' i)
+  · rw [centre_inner_face]
+    rcases hin with h | ⟨h1, h2⟩
+    · exact Or.inl h
+    · right
+      subst h1; subst h2
+      have ml : ((⟨[n], 0, 0, .lower, false⟩ : Face), dr, Cond.neumann (fun _ => (0:K)))
+          ∈ radialFaces [n] false [dr] [false] (consCond false false) false := (mem_gridFaces ..).mpr ⟨0, by simp, Or.inr rfl⟩
+      rw [neumann0_ghost]
+      exact line_neumann0 _ hc a _ _ ml [0] hon
+  · rw [neumann0_ghost]
+    exact hout
+
+/-- spherical grid, conservative (central) divergence of a vector field with vanishing normal component -/
+theorem sph_divergence_conservative_integral_zero_grid (rmin dr : K) (hdr : 0 < dr) (a : Arr K) (n : Nat) (hn : 1 ≤ n)
+    (cin : Cond K) (nin : Bool) (hin : InnerOK true rmin cin nin) (hcurv : ∀ k, cin = .curvature k → 2 ≤ n) :
+    intSphDivergence true .central (centre rmin dr) dr (setGhostAll (radialFaces [n] true [dr] [false] cin nin) a) n = 0 := by
+  have hc := radialFaces_compatible [n] true [dr] [false] cin nin (shape1_ok n hn) (by simpa using hcurv)
+  have hon : OnLine [n] 1 0 true [0, 0] := by online
+  have mu : ((⟨[n], 1, 0, .upper, true⟩ : Face), dr, Cond.dirichlet (fun _ => (0:K)))
+      ∈ radialFaces [n] true [dr] [false] cin nin := (mem_gridFaces ..).mpr ⟨0, by simp, Or.inl rfl⟩
+  have hout := line_dirichlet0 _ hc a _ _ mu [0, 0] hon
+  apply sph_divergence_conservative_integral_zero (centre rmin dr) dr _ n hdr.ne' (centre_lattice rmin dr)
+    (fun i => centre_shell_ne rmin dr hdr.ne' i)
+  · rw [centre_inner_face]
+    rcases hin with h | ⟨h1, h2⟩
+    · exact Or.inl h
+    · right
+      subst h1; subst h2
+      have ml : ((⟨[n], 1, 0, .lower, true⟩ : Face), dr, Cond.dirichlet (fun _ => (0:K)))
+          ∈ radialFaces [n] true [dr] [false] (consCond true false) true := (mem_gridFaces ..).mpr ⟨0, by simp, Or.inr rfl⟩
+      rw [dirichlet0_ghost]
+      exact line_dirichlet0 _ hc a _ _ ml [0, 0] hon
+  · rw [dirichlet0_ghost]
+    exact hout
+
+/-- cylindrical grid, Laplacian: zero-flux outer face, zero-flux or periodic `z`, inner face zero-flux or
+anything if `r_min = 0` -/
+theorem cyl_laplace_integral_zero_grid (rmin dr dz : K) (h0 : 0 ≤ rmin) (hdr : 0 < dr) (hdz : dz ≠ 0) (a : Arr K)
+    (n m : Nat) (hn : 1 ≤ n) (hm : 1 ≤ m) (pz : Bool)
+    (cin : Cond K) (nin : Bool) (hin : InnerOK false rmin cin nin) (hcurv : ∀ k, cin = .curvature k → 2 ≤ n) :
+    intCylLaplace (centre rmin dr) dr dz
+      (setGhostAll (radialFaces [n, m] false [dr, dz] [false, pz] cin nin) a) n m = 0 := by
+  have hc := radialFaces_compatible [n, m] false [dr, dz] [false, pz] cin nin (shape2_ok n m hn hm) (by simpa using hcurv)
+  have mu : ((⟨[n, m], 0, 0, .upper, false⟩ : Face), dr, Cond.neumann (fun _ => (0:K)))
+      ∈ radialFaces [n, m] false [dr, dz] [false, pz] cin nin := (mem_gridFaces ..).mpr ⟨0, by simp, Or.inl rfl⟩
+  apply cyl_laplace_integral_zero_axes (centre rmin dr) dr dz hdr.ne' hdz _ n m (centre_lattice rmin dr)
+    (fun i hi => centre_ne_zero rmin dr h0 hdr i hi)
+  · rw [centre_inner_face]
+    rcases hin with h | ⟨h1, h2⟩
+    · exact Or.inl h
+    · right
+      intro j _ _
+      subst h1; subst h2
+      have ml : ((⟨[n, m], 0, 0, .lower, false⟩ : Face), dr, Cond.neumann (fun _ => (0:K)))
+          ∈ radialFaces [n, m] false [dr, dz] [false, pz] (consCond false false) false :=
+        (mem_gridFaces ..).mpr ⟨0, by simp, Or.inr rfl⟩
+      exact line_neumann0 _ hc a _ _ ml [0, (j:Int)] (by online)
+  · intro j _ _
+    exact line_neumann0 _ hc a _ _ mu [0, (j:Int)] (by online)
+  · intro i _ _
+    exact gridFaces_scalar_line [n, m] _ _ _ _ _ hc a 1 (by simp) pz rfl rfl rfl rfl [(i:Int), 0] (by online)
+
+/-! ### the hypotheses are satisfiable: a concrete grid, a concrete non-constant field -/
+
+/-- 3 cells, hole of radius 1, `dr = 1/2`: the lattice hypotheses hold for the centres of the grid -/
+example : (∀ i : Int, centre (1:Rat) (1/2) (i + 1) = centre (1:Rat) (1/2) i + 1/2) ∧
+    centre (1:Rat) (1/2) 0 + (1/2) / 2 = 1 ∧ (∀ i : Nat, 1 ≤ i → centre (1:Rat) (1/2) (i:Int) ≠ 0) :=
+  ⟨centre_lattice 1 (1/2), centre_inner_face 1 (1/2), fun i hi => centre_ne_zero 1 (1/2) (by norm_num) (by norm_num) i hi⟩
+
+/-- the non-constant field `i ↦ i²` on a polar grid with hole: the model's ghost cells, then the model's
+weighted sum - evaluated, not only proved -/
+example : intPolarLaplace (centre (1:Rat) (1/2)) (1/2)
+    (setGhostAll (radialFaces [3] false [(1/2 : Rat)] [false] (consCond false false) false)
+      (fun idx => ((idx.getD 0 0 : Int) : Rat) ^ 2)) 3 = 0 := by decide +kernel
+
+/-- without the ghost cells the same field does not integrate to zero (the statement has content) -/
+example : intPolarLaplace (centre (1:Rat) (1/2)) (1/2) (fun idx => ((idx.getD 0 0 : Int) : Rat) ^ 2) 3 ≠ 0 := by
+  decide +kernel
+
+/-- 2 × 2 cells, periodic in `y`, walls in `x`, non-constant vector field: divergence sums to zero -/
+example : intCart2Divergence .central (1/2 : Rat) 2
+    (setGhostAll (consFaces [2, 2] true [(1/2 : Rat), 2] [false, true])
+      (fun idx => ((idx.getD 0 0 + 3 * idx.getD 1 0 * idx.getD 1 0 - 2 * idx.getD 2 0 : Int) : Rat))) 2 2 = 0 := by
+  decide +kernel
+
+
+end grids
+
 end PdeVerif.Conserve
